@@ -24,8 +24,11 @@ impl PixelDataReader for UncompressedAdapter {
             .raw_pixel_data()
             .context(decode_error::MissingAttributeSnafu { name: "Pixel Data" })?;
 
+        // each fragment holds one frame,
+        // followed by a padding byte if the frame has an odd number of bytes
+        let frame_size = native_frame_size(src);
         for fragment in pixeldata.fragments {
-            dst.extend_from_slice(&fragment);
+            dst.extend_from_slice(without_padding(&fragment, frame_size));
         }
 
         Ok(())
@@ -42,9 +45,30 @@ impl PixelDataReader for UncompressedAdapter {
             .frame_pixel_data(frame)
             .context(decode_error::FrameRangeOutOfBoundsSnafu)?;
 
-        dst.extend_from_slice(frame.as_ref());
+        dst.extend_from_slice(without_padding(frame.as_ref(), native_frame_size(src)));
 
         Ok(())
+    }
+}
+
+/// The number of bytes of one uncompressed frame,
+/// if the object has the attributes to tell.
+fn native_frame_size(src: &dyn PixelDataObject) -> Option<usize> {
+    Some(
+        src.cols()? as usize
+            * src.rows()? as usize
+            * src.samples_per_pixel()? as usize
+            * (src.bits_allocated()? as usize).div_ceil(8),
+    )
+}
+
+/// Leave out the byte which pads a frame of odd size to an even fragment length.
+fn without_padding(fragment: &[u8], frame_size: Option<usize>) -> &[u8] {
+    match frame_size {
+        Some(frame_size) if frame_size % 2 == 1 && fragment.len() == frame_size + 1 => {
+            &fragment[..frame_size]
+        }
+        _ => fragment,
     }
 }
 
